@@ -333,6 +333,23 @@ def rules(rep, m):
     wpx = FuncCtx(m, wp)
     res = [c for c in walk(wp.body) if c["kind"] == "CallExpr" and callee_ref(c) == "cmi_coroutine_resume"]
     okr = len(res) == 1 and [wpx.canon(z) for z in kids(res[0])[1:]] == [wp.params[0]["name"], wp.params[1]["name"]]
+    if not res:
+        # the resume may sit in a shared routine that forwards (process, value) to cmi_coroutine_resume unchanged
+        fwd = []
+        for c in walk(wp.body):
+            if c["kind"] == "CallExpr" and callee_ref(c):
+                g = m.funcs.get(m.resolve(wp.unit, callee_ref(c)))
+                if g is None or g is wp or len(g.params) < 2:
+                    continue
+                gx = FuncCtx(m, g)
+                gres = [y for y in walk(g.body) if y["kind"] == "CallExpr" and callee_ref(y) == "cmi_coroutine_resume"]
+                if len(gres) == 1:
+                    ga = [gx.canon(z) for z in kids(gres[0])[1:]]
+                    pn = [p_["name"] for p_ in g.params]
+                    if ga[0] in pn and ga[1] in pn:
+                        args = [wpx.canon(z) for z in kids(c)[1:]]
+                        fwd.append([args[pn.index(ga[0])], args[pn.index(ga[1])]])
+        okr = len(fwd) == 1 and fwd[0] == [wp.params[0]["name"], wp.params[1]["name"]]
     r5.instance("wakeup_event_process resumes its subject with the signal: %s" % okr)
     if not okr:
         rep.finding(r5, wp.name, "deliver", "the process wake-up does not resume its subject with the scheduled signal",
